@@ -1004,7 +1004,8 @@ pub fn message_named_errors(b: &[u8], check_reserved: bool, check_version: bool,
     }
     // message.err.control_list / control_id
     let l = control_list(w, check_unused, &b[2..])?;
-    if !l.is_empty() && rec_is_message_type(&l[0]) && !recs_all_ok(&l) {
+    // (an undecodable first record is reported like any other: its own error is not masked by ControlMessageTypeNotFirst)
+    if !l.is_empty() && (rec_is_message_type(&l[0]) || matches!(l[0], RecV::Err(_))) && !recs_all_ok(&l) {
         Some(recs_errors(&l))
     } else {
         None
@@ -1093,7 +1094,14 @@ fn debug_field_u64<T: std::fmt::Debug>(x: &T, field: &str) -> u64 {
     let s = format!("{x:?}");
     let key = format!("{field}: ");
     let at = s.find(&key).unwrap_or_else(|| panic!("VF-VIEW: no field {field} in {s}")) + key.len();
-    let digits: String = s[at..].chars().take_while(|c| c.is_ascii_digit()).collect();
+    // the derived Debug prints a plain decimal number followed by `,`, ` }` or `)`; anything else (a hand-written Debug
+    // printing hex, a wrapper type, ...) is not readable by this oracle: VF-VIEW, never a witness
+    let tail = &s[at..];
+    let digits: String = tail.chars().take_while(|c| c.is_ascii_digit()).collect();
+    let next = tail[digits.len()..].chars().next();
+    if digits.is_empty() || !matches!(next, None | Some(',') | Some(' ') | Some('}') | Some(')')) {
+        panic!("VF-VIEW: field {field} is not a plain decimal number in {s}");
+    }
     digits.parse().unwrap_or_else(|_| panic!("VF-VIEW: bad number in {s}"))
 }
 fn variant_name<T: std::fmt::Debug>(x: &T) -> String {
@@ -1204,6 +1212,9 @@ pub fn view(a: &AVP) -> AvpV {
         AVP::RxConnectSpeed(x) => one_int(38, x.value as u64),
         AVP::SequencingRequired(_) => AvpV::new(39),
         AVP::Hidden(x) => hidden_view(x.attribute_type as i64, &x.value),
+        // tolerate additive API changes (`#[non_exhaustive]`, a new variant): an unknown variant has no view
+        #[allow(unreachable_patterns)]
+        _ => panic!("VF-VIEW: AVP variant without a view"),
     }
 }
 pub fn view_control(c: &ControlMessage) -> CtlV {
